@@ -4,3 +4,4 @@ pub mod c20;
 pub mod c09;
 pub mod c16;
 pub mod c17;
+pub mod c08;
